@@ -25,6 +25,10 @@ pub enum Step {
     Certificate(Vec<Vec<u8>>),
     /// the ServerKeyExchange, signed with the attacker's key
     KeyExchange,
+    /// the attacker's ServerKeyExchange (its own P-256 share, signed with its own key) but
+    /// LABELLED with another curve type / named curve: a client that decides from the label
+    /// whether it can check the signature must not go on with the share
+    KeyExchangeLabelled { curve_type: u8, named_curve: u16 },
     /// a ServerKeyExchange exactly as the GENUINE server would send it for this handshake: a fresh
     /// ephemeral share whose secret the attacker does not have, signed with the genuine server's
     /// key over (client random, server random, parameters). This is what an on-path attacker
@@ -204,6 +208,20 @@ impl ScriptedServer {
                                             p.extend_from_slice(&public);
                                             let sig: Signature = honest.sign(&p);
                                             let ske = ServerKeyExchange { curve_type: 3, named_curve: 23, public_key: public, signature: sig.to_der().as_bytes().to_vec() };
+                                            let mut b = BytesMut::new();
+                                            ske.encode(&mut b);
+                                            flight.push(self.hs(12, &b));
+                                        }
+                                        Step::KeyExchangeLabelled { curve_type, named_curve } => {
+                                            let mut p = vec![];
+                                            p.extend_from_slice(&self.client_random);
+                                            p.extend_from_slice(&self.server_random);
+                                            p.push(curve_type);
+                                            p.extend_from_slice(&named_curve.to_be_bytes());
+                                            p.push(self.public.len() as u8);
+                                            p.extend_from_slice(&self.public);
+                                            let sig: Signature = self.signing.sign(&p);
+                                            let ske = ServerKeyExchange { curve_type, named_curve, public_key: self.public.clone(), signature: sig.to_der().as_bytes().to_vec() };
                                             let mut b = BytesMut::new();
                                             ske.encode(&mut b);
                                             flight.push(self.hs(12, &b));
